@@ -39,6 +39,15 @@ class Prior(Distribution, Module, ABC):
         if isinstance(self, TransformedDistribution):
             _load_transformed_to_base_dist(self)
 
+    def _apply(self, fn, *args, **kwargs):
+        # Module._apply replaces the buffers (.double(), .to(device), ...): point base_dist at the new tensors again, so that the
+        # _transformed_<attr> buffers and base_dist.<attr> stay one tensor (an in-place load_state_dict through a parent module
+        # relies on that)
+        module = super()._apply(fn, *args, **kwargs)
+        if isinstance(self, TransformedDistribution):
+            _load_transformed_to_base_dist(self)
+        return module
+
     def __setattr__(self, name: str, value: Any) -> None:
         if hasattr(self, name) and "_transformed_" in name:
             base_attr_name = name.replace("_transformed_", "")
